@@ -139,28 +139,31 @@ Proof.
     split; [apply Z.div_pos; lia | apply Z.div_lt_upper_bound; lia].
 Qed.
 
-Ltac bits_shape pk c b p s :=
+Ltac bits_shape pk c b p f :=
   lazymatch goal with |- _ = Ret (bits_loop _ ?l ?bits) =>
-    change s with (pk bits l); rewrite (bits_while pk c b p);
-    [ reflexivity
-    | intros; iter_open; repeat break_if; reflexivity
-    | unfold zlen in *; lia ]
+    let H1 := fresh "H1" in
+    assert (H1 : forall bb ll, iter1 c b p (pk bb ll) = Ret (if ll =? 0 then inr (inl (pk bb ll)) else inl (pk (bb + 1) (Z.shiftr ll 1))));
+    [ intros; iter_open; repeat break_if; reflexivity
+    | let E := fresh "E" in
+      pose proof (bits_while pk c b p H1 f l bits ltac:(unfold zlen in *; lia)) as E;
+      cbv beta in E; rewrite E; clear E H1; reflexivity ]
   end.
 
-(* the model's bits_loop returns the count reached when its fuel ends; the generated loop says NoFuel there.  Where the
-   fuel suffices (l < 2^f for fuel f + 1: one test per bit of l plus the final one) they agree, for every start value of bits. *)
-Theorem code_bits_loop : forall f r bits, zlen r < 2 ^ Z.of_nat f ->
-  g_NewStrGenerator_loop1 (S f) r bits = Ret (bits_loop (S f) (zlen r) bits).
+(* the fragment: `var bits int` and the loop (NewStrGenerator itself is not translatable: []rune(charSet), a rand.Source).
+   The model's bits_loop returns the count reached when its fuel ends; the generated loop says NoFuel there.  Where the
+   fuel suffices (len < 2^f for fuel f + 1: one test per bit of the length plus the final one) they agree. *)
+Theorem code_bits_loop : forall f r, zlen r < 2 ^ Z.of_nat f ->
+  g_NewStrGenerator_loop1 (S f) r = Ret (bits_loop (S f) (zlen r) 0).
 Proof.
-  intros f r bits Hr. open_code.
+  intros f r Hr. open_code.
   match goal with |- match while _ ?c ?b ?p ?s with _ => _ end = _ =>
-    first [ solve [bits_shape (fun x y : Z => (x, y)) c b p s] | solve [bits_shape (fun x y : Z => (y, x)) c b p s] ]
+    first [ solve [bits_shape (fun x y : Z => (x, y)) c b p f] | solve [bits_shape (fun x y : Z => (y, x)) c b p f] ]
   end.
 Qed.
 
-(* as NewStrGenerator uses it: bits starts at 0; new_sgen runs the model's loop with fuel 64 *)
+(* as new_sgen runs it: the model's loop with fuel 64 *)
 Corollary code_bits_loop64 : forall r, zlen r < 2 ^ 63 ->
-  g_NewStrGenerator_loop1 64 r 0 = Ret (bits_loop 64 (Z.of_nat (length r)) 0).
+  g_NewStrGenerator_loop1 64 r = Ret (bits_loop 64 (Z.of_nat (length r)) 0).
 Proof. intros r H. apply (code_bits_loop 63). exact H. Qed.
 
 (* ================================================================== ParseBase32 (randz/id.go) *)
@@ -191,11 +194,13 @@ Proof.
     + rewrite parse_none. reflexivity.
 Qed.
 
-Ltac parse_shape pk c b p s :=
+Ltac parse_shape pk c b p fuel :=
   lazymatch goal with Hb : Forall is_byte ?bs |- _ =>
-    change s with (pk (Z.of_nat 0) 0); rewrite (parse_while pk c b p bs);
-    [ cbn [skipn]; unfold parse_base32; destruct (fold_left parse_step bs (Some 0)); reflexivity
-    | let k := fresh "k" in let id := fresh "id" in let Hk := fresh "Hk" in
+    let H1 := fresh "H1" in let H2 := fresh "H2" in
+    assert (H1 : forall k id, (k < length bs)%nat ->
+              iter1 c b p (pk (Z.of_nat k) id) =
+              Ret (match parse_step (Some id) (nth k bs 0) with Some v => inl (pk (Z.of_nat k + 1) v) | None => inr (inr (parse_res None)) end));
+    [ let k := fresh "k" in let id := fresh "id" in let Hk := fresh "Hk" in
       intros k id Hk; iter_open;
       assert (Hc : is_byte (nth k bs 0)) by (rewrite Forall_forall in Hb; apply Hb, nth_In, Hk);
       assert (Hg : m_get bs (Z.of_nat k) = Ret (nth k bs 0)) by (unfold m_get; rewrite get_at_nth by exact Hk; reflexivity);
@@ -203,9 +208,12 @@ Ltac parse_shape pk c b p s :=
       repeat first [ rewrite Hl | rewrite Hg | rewrite (decode_get _ Hc) | progress step_code ];
       unfold parse_step, g_parse_invalid, g_parse_radix; rewrite ?swrap64, ?wrap64_add_l;
       repeat break_if; try reflexivity; zb; try lia; try congruence
-    | let id := fresh "id" in intros id; iter_open; rewrite Z.ltb_irrefl; reflexivity
-    | lia
-    | lia ]
+    | assert (H2 : forall id, iter1 c b p (pk (zlen bs) id) = Ret (inr (inl (pk (zlen bs) id))));
+      [ let id := fresh "id" in intros id; iter_open; rewrite Z.ltb_irrefl; reflexivity
+      | let E := fresh "E" in
+        pose proof (parse_while pk c b p bs H1 H2 fuel 0%nat 0 ltac:(lia) ltac:(lia)) as E;
+        cbv beta in E; change (Z.of_nat 0) with 0 in E; rewrite E; clear E H1 H2;
+        cbn [skipn]; unfold parse_base32; destruct (fold_left parse_step bs (Some 0)); reflexivity ] ]
   end.
 
 (* for every fuel above the length of the input: the generated function, run on the table the generated init() builds,
@@ -215,7 +223,7 @@ Theorem code_ParseBase32 : forall fuel bs, Forall is_byte bs -> (length bs < fue
 Proof.
   intros fuel bs Hb Hf. open_code.
   match goal with |- match while _ ?c ?b ?p ?s with _ => _ end = _ =>
-    first [ solve [parse_shape (fun i id : Z => (i, id)) c b p s] | solve [parse_shape (fun i id : Z => (id, i)) c b p s] ]
+    first [ solve [parse_shape (fun i id : Z => (i, id)) c b p fuel] | solve [parse_shape (fun i id : Z => (id, i)) c b p fuel] ]
   end.
 Qed.
 
